@@ -1,6 +1,7 @@
 \* export (quick): routing - every list over 0..4 x instant x chain x first-element form, answered by an honest shard, a valid SCT of another shard, a 500
 CONSTANTS
   ShardLists <- MCAllLists
+  Deployments <- MCDepRoute
   Instants = {0, 1, 2, 3, 4}
   Scenes = {"submit"}
   ChainKinds = {"x509", "precert", "precertPreIssuer"}
